@@ -16,6 +16,13 @@ Contracts
   pixels-visited-exactly-once  every pass reads each stored pixel of [0,nnz) (cis-only sweeps: of the
                                chromosome's pixel range) exactly once, content identical to the stored rows
   cli==api                     `cooler balance -p N -c K ...` stores the weights/stats the API returns
+  repeat-invariant:after-rewriting-the-same-path
+                               repeated runs WITH HISTORY in one process: the cooler at one path is rewritten (same number
+                               of bins, other chromosome layout and/or pixels; overwrite / os.replace / unlink+create) after
+                               it was balanced in every mode with the builtin map and through the pool workers; balancing
+                               the new contents (new Cooler(P), URI P::/, builtin map and the same pools) must give what a
+                               byte-identical copy at a never-used path gives in this process AND in a brand-new process,
+                               and the dense procedure - nothing may be remembered from the earlier file
 
 Latitude granted by the statement: floating-point summation order (hence 1e-12, not bit equality)."""
 import sys, os
@@ -516,17 +523,11 @@ def run_combo(task):
         kind = f"{mode}:" + ("empty-cooler" if nnz == 0 else "nnz>0")
         ref = rec.guarded("chunksize-invariant", dict(case, chunksize=None), lambda: call_balance(clr, o, n),
                           signature=f"chunksize-invariant:exception:chunksize=None:{kind}")
-        ref_cs = None
-        if ref is None:
-            # chunksize=None is itself in the quantifier (recorded above); go on with the other single-chunk run as reference
-            ref_cs = nnz + 1
-            ref = rec.guarded("chunksize-invariant", dict(case, chunksize=nnz + 1), lambda: call_balance(clr, o, n, nnz + 1),
-                              signature=f"chunksize-invariant:exception:chunksize=nnz+1:{kind}")
         if ref is None:
             continue
         live = bool((~np.isnan(ref["w"])).any())
         # the same call again
-        against(ref, "repeat-invariant", dict(case, chunksize=ref_cs), lambda: call_balance(clr, o, n, ref_cs), f"repeat-invariant:{mode}", live)
+        against(ref, "repeat-invariant", dict(case, chunksize=None), lambda: call_balance(clr, o, n), f"repeat-invariant:{mode}", live)
         # the documented procedure on the dense matrix
         dw, dscale, dvar, dborder = dense_ic(F, sizes, o)
         if not dborder:
@@ -604,6 +605,136 @@ def pool_checks(B, rec, pools, mspec, sizes, opts, css):
                                   signature=f"map-invariant:pool.{meth}:{o['mode']}")
 
 
+HIST = "repeat-invariant:after-rewriting-the-same-path"
+
+
+def to_json(r):
+    return dict(w=r["w"].tolist(), scale=r["scale"].tolist(), var=r["var"].tolist(), conv=r["conv"].tolist())
+
+
+def from_json(d):
+    return dict(w=np.array(d["w"], dtype=float), scale=np.array(d["scale"], dtype=float), var=np.array(d["var"], dtype=float),
+                conv=np.array(d["conv"], dtype=bool))
+
+
+def fresh_ref_main(arg):
+    """child side of fresh_process_refs: a brand-new interpreter that has never balanced anything"""
+    a = json.loads(arg)
+    clr = cooler.Cooler(a["path"])
+    print(json.dumps([to_json(call_balance(clr, o, a["n"])) for o in a["opts"]]))
+    return 0
+
+
+def fresh_process_refs(path, opts, n):
+    """balance the cooler at `path` in a NEW python process (no history of any kind); floats travel exactly (repr round trip)"""
+    import subprocess
+    p = subprocess.run([sys.executable, "-W", "ignore", os.path.abspath(__file__), "--fresh-ref", json.dumps(dict(path=path, opts=opts, n=n))],
+                       capture_output=True, text=True, env=dict(os.environ))
+    lines = [ln for ln in p.stdout.strip().splitlines() if ln.startswith("[")]
+    if p.returncode != 0 or not lines:
+        raise RuntimeError("fresh-process reference failed: " + (p.stdout + p.stderr)[-600:])
+    return [from_json(d) for d in json.loads(lines[-1])]
+
+
+def hist_opts(n):
+    return [O(mode="cis", nnz=0, mad=1, maxit=5), O(mode="trans", ig=1, nnz=1, maxit=5), O(mode="gw", ig=1, nnz=1, maxit=5),
+            O(mode="cis", ig=0, nnz=1, x0="rand", tol=1e-3, maxit=5)]
+
+
+def history_checks(B, rec, pools, name, steps, full=False, only_step=None):
+    """steps = [(matrix spec, chromosome sizes, how)], all with the same number of bins; the cooler at ONE path P is rewritten
+    step by step (how = 'overwrite': create_cooler over the existing file | 'replace': built aside, then os.replace | 'remove':
+    unlink, then create).  After every rewrite the cooler at P is balanced in this process - which has balanced the earlier
+    contents of P with the builtin map and through the same pool workers - via a new Cooler(P) and via the URI P::/ ; the
+    result must be that of a byte-identical copy at a never-used path, balanced here and in a brand-new process, and the
+    documented procedure on the dense matrix."""
+    P = B.path(f"hist-{name}.cool")
+    hist = []
+    plist = list(pools.items())
+    for k, (spec, sizes, how) in enumerate(steps):
+        F = build_matrix(spec)
+        n = len(F)
+        sizes = tuple(sizes)
+        bins, pix = layout_bins(sizes), pixels_from_dense(F, True)
+        if how == "replace" and os.path.exists(P):
+            side = P + ".new"
+            make_cooler(side, bins, pix, True)
+            os.replace(side, P)
+        else:
+            if how == "remove" and os.path.exists(P):
+                os.remove(P)
+            make_cooler(P, bins, pix, True)
+        hist.append(dict(matrix=spec, chroms=list(sizes), how=how))
+        opts = hist_opts(n)
+        runs = []  # (access, map name, map, chunksize)
+        for ai, access in enumerate(("Cooler(P)", "Cooler(P::/)")):
+            runs.append((access, "builtin", map, None if ai == 0 else 2))
+            nw, pool = plist[(ai + k) % len(plist)]
+            meths = ("map", "imap", "imap_unordered") if full else (("imap_unordered", "map")[ai],)
+            for meth in meths:
+                runs.append((access, f"Pool({nw}).{meth}", getattr(pool, meth), 1))
+        if k == 0 or (only_step is not None and k < only_step):
+            # first contents of P: only make history (every mode, every map, every worker)
+            for o in opts:
+                for access, mname, mapf, cs in runs:
+                    rec.guarded(HIST, dict(history=list(hist), opt=o, access=access, map=mname, chunksize=cs),
+                                lambda: call_balance(cooler.Cooler(P if access == "Cooler(P)" else P + "::/"), o, n, cs, mapf),
+                                signature=f"{HIST}:exception:first-contents")
+            continue
+        Q = B.path(f"hist-{name}-fresh{k}.cool")
+        shutil.copy(P, Q)
+        c0 = dict(history=list(hist))
+        here = rec.guarded(HIST, dict(c0, reference="fresh path, this process"), lambda: [call_balance(cooler.Cooler(Q), o, n) for o in opts],
+                           signature=f"{HIST}:exception:fresh-path")
+        new = rec.guarded(HIST, dict(c0, reference="fresh path, new process"), lambda: fresh_process_refs(Q, opts, n),
+                          signature=f"{HIST}:exception:fresh-process")
+        if here is None or new is None:
+            continue
+        for oi, o in enumerate(opts):
+            mode = o["mode"]
+            live = bool((~np.isnan(new[oi]["w"])).any())
+            rec.check(HIST, same(here[oi], new[oi]), dict(c0, opt=o, access="Cooler(fresh path)", map="builtin", chunksize=None),
+                      show(here[oi]), show(new[oi]), nontrivial=live, signature=f"{HIST}:{mode}:fresh-path-differs-from-new-process")
+            for access, mname, mapf, cs in runs:
+                case = dict(c0, opt=o, access=access, map=mname, chunksize=cs)
+                mk = "builtin" if mname == "builtin" else "pool"
+                got = rec.guarded(HIST, case, lambda: call_balance(cooler.Cooler(P if access == "Cooler(P)" else P + "::/"), o, n, cs, mapf),
+                                  signature=f"{HIST}:exception:{mode}:{mk}")
+                if got is None:
+                    continue
+                rec.check(HIST, same(got, new[oi]) and same(got, here[oi]), case, show(got), show(new[oi]), nontrivial=live,
+                          signature=f"{HIST}:{mode}:{mk}")
+            # the dense statement for the NEW contents (known deviating conventions keep their own contract/signature)
+            got = here[oi]
+            dw, dscale, dvar, dborder = dense_ic(F, sizes, o)
+            if dborder:
+                continue
+
+            def dense_same(d2, cw):
+                w_, s_, v_, _ = dense_ic(F, sizes, o, diag2=d2, cw=cw)
+                mu = float(np.max(np.nan_to_num(s_) ** 2, initial=0.0))
+                return close(got["w"], w_, 1e-9) and close(got["scale"], s_, 1e-9) and close(got["var"], v_, 1e-6, 1e-13 * mu)
+            case = dict(c0, opt=o, access="Cooler(fresh path)", map="builtin", chunksize=None, reference="dense procedure")
+            if dense_same(False, False):
+                rec.ok(HIST, case, live)
+                continue
+            d2p = o["ig"] == 0 and bool(np.diag(F).any())
+            known = None
+            for d2, cw in ((True, False), (False, True), (True, True)):
+                if (d2 and not d2p) or (cw and mode != "trans"):
+                    continue
+                if dense_same(d2, cw):
+                    known = "+".join((["ignore_diags=0:main-diagonal-counted-twice"] if d2 else []) +
+                                     (["trans-only:chromosome-factor-missing-from-returned-weights"] if cw else []))
+                    break
+            if known:
+                # not a memory effect: the convention defects already reported by reference==dense-procedure
+                rec.fail("reference==dense-procedure", case, show(got), dict(weights=lst(dw), scale=lst(dscale), var=lst(dvar)),
+                         "reference==dense-procedure:" + known)
+            else:
+                rec.fail(HIST, case, show(got), dict(weights=lst(dw), scale=lst(dscale), var=lst(dvar)), f"{HIST}:{mode}:dense-procedure")
+
+
 def cli_checks(B, rec, mspec, sizes, runs):
     from click.testing import CliRunner
     from cooler.cli import cli
@@ -651,11 +782,17 @@ def replay(B):
     from multiprocess import Pool
     r = json.load(open(B.replay_file))
     case, contract = r["case"], r["contract"]
-    mspec, sizes = case["matrix"], tuple(case["chroms"])
+    mspec, sizes = case.get("matrix"), tuple(case.get("chroms", ()))
     rec = Rec()
     cs = case.get("chunksize")
     mp = str(case.get("map", ""))
-    if contract == "pixels-visited-exactly-once":
+    if "history" in case:
+        steps = [(h["matrix"], tuple(h["chroms"]), h["how"]) for h in case["history"]]
+        pools = {2: Pool(2), 3: Pool(3)}
+        history_checks(B, rec, pools, "replay", steps, full=True, only_step=len(steps) - 1)
+        for p in pools.values():
+            p.terminate()
+    elif contract == "pixels-visited-exactly-once":
         F = build_matrix(mspec)
         path = B.path("replay.cool")
         make_cooler(path, layout_bins(sizes), pixels_from_dense(F, True), True)
@@ -683,7 +820,29 @@ def replay(B):
     return 0
 
 
+def hist_scenarios(thorough, rng):
+    U = upper_spec
+    D4b = np.array([[1, 3, 1, 2], [3, 2, 1, 1], [1, 1, 1, 4], [2, 1, 4, 2]])
+    D5b = np.array([[1, 2, 1, 3, 1], [2, 2, 1, 1, 2], [1, 1, 3, 2, 1], [3, 1, 2, 1, 1], [1, 2, 1, 1, 2]])
+    sc = [("n4", [(U(DENSE4), (2, 2), "overwrite"), (U(D4b), (3, 1), "overwrite"), (U(DENSE4), (1, 1, 2), "replace")]),
+          ("n6", [(U(SPARSE6), (3, 2, 1), "overwrite"), (U(GRADED6), (2, 4), "remove")]),
+          ("n5-same-pixels", [(U(DENSE5), (3, 2), "overwrite"), (U(DENSE5), (2, 3), "overwrite")])]
+    if thorough:
+        lay6 = [(6,), (3, 3), (2, 4), (3, 2, 1), (1, 2, 3), (4, 1, 1), (1, 5), (2, 2, 2)]
+        mats6 = [GRADED6, SPARSE6, BANDED6]
+        steps = []
+        for k in range(12):
+            steps.append((U(mats6[rng.randrange(3)]), lay6[rng.randrange(len(lay6))], ("overwrite", "replace", "remove")[k % 3]))
+        sc.append(("n6-chain", steps))
+        lay5 = [(5,), (3, 2), (2, 3), (2, 2, 1), (1, 4), (1, 1, 3)]
+        sc.append(("n5-chain", [(U((DENSE5, D5b)[k % 2]), lay5[rng.randrange(len(lay5))], ("replace", "overwrite")[k % 2]) for k in range(8)]))
+        sc.append(("n4-same-layout-new-pixels", [(U(DENSE4), (2, 2), "overwrite"), (U(D4b), (2, 2), "overwrite"), (U(D4b), (1, 3), "remove")]))
+    return sc
+
+
 def main():
+    if "--fresh-ref" in sys.argv:
+        return fresh_ref_main(sys.argv[sys.argv.index("--fresh-ref") + 1])
     B = Bounded("C11", "bounded/C11.py")
     B.max_violations = 60
     if B.replay_file:
@@ -719,7 +878,8 @@ def main():
                    "x 6 vectors x every chunksize at max_iters 3; empty cooler; 6 map implementations (list, generator, reversed, 2 seeded evaluation orders, "
                    "seeded delivery order) at chunksize {2,5} on 3 vectors per cooler; every permutation of 3 and of 4 chunks; Pool(2), Pool(3) x map/imap/"
                    "imap_unordered x chunksize {1,4} x 2 vectors x 2 coolers; probe of the pixels read by every pass for every chunksize 1..nnz+2 and None x 3 modes on "
-                   "3 coolers (+cis on the 5-bin one); 6 CLI runs (-p 1/2/3, -c 1..7, 3 modes)")
+                   "3 coolers (+cis on the 5-bin one); 6 CLI runs (-p 1/2/3, -c 1..7, 3 modes); history: one path rewritten 4 times in 3 chains (2+2 -> 3+1 -> 1+1+2; "
+                   "3+2+1 -> 2+4; 3+2 -> 2+3 with the same pixels) x 4 vectors (cis, trans, genome-wide, cis+x0) x {Cooler(P), P::/} x {builtin, Pool(2|3) map/imap_unordered}")
         B.exhaustive = True
     else:
         mats = [(DENSE4, (2, 2)), (SPARSE6, (3, 2, 1)), (DENSE5, (3, 2)), (GRADED6, (3, 3)), (BANDED6, (6,)), (DENSE5, (2, 2, 1)), (EMPTY3, (2, 1))]
@@ -740,11 +900,14 @@ def main():
         B.bound = ("7 small coolers (4-6 bins, 1-3 chromosomes, dense / sparse / graded / banded / empty) x 10 option vectors (6 fixed + 4 seeded) x every chunksize "
                    "1..nnz+2 to max_iters 25; 6 map implementations at chunksize {1,2,5,nnz/2+1}; every permutation for every chunksize giving 2..4 chunks (3 vectors per "
                    "cooler); pixel-read probe for every chunksize x 3 modes; beyond the bound: 4 seeded random coolers (12 and 30 bins) x 8 vectors x every chunksize "
-                   "(nnz<=40) or 12 chunk sizes incl. nnz-1..nnz+2; Pool(2), Pool(3) x map/imap/imap_unordered x chunksize {1,4} x 6 vectors x 3 coolers; 36 CLI runs (-p 1/2/3)")
+                   "(nnz<=40) or 12 chunk sizes incl. nnz-1..nnz+2; Pool(2), Pool(3) x map/imap/imap_unordered x chunksize {1,4} x 6 vectors x 3 coolers; 36 CLI runs (-p 1/2/3); "
+                   "history: the 3 quick chains + seeded chains of 12 (6 bins, 8 layouts) and 8 (5 bins, 6 layouts) rewrites + same layout/new pixels, "
+                   "x 4 vectors x 2 spellings x {builtin, Pool.map, imap, imap_unordered}")
         B.exhaustive = False
     B.rule = ("case = (cooler, option vector, chunksize, map[, permutation]); compared bin by bin within 1e-12 relative + NaN set + scale/var/converged with the "
               "chunksize=None builtin-map run; non-trivial when some bin gets a finite weight and the chunksize splits the pixels (chunksize < nnz); "
-              "probe non-trivial when nnz > 0; distinct by (contract, case)")
+              "probe non-trivial when nnz > 0; history case = (sequence of contents written to the path, option vector, spelling, map), compared with the "
+              "fresh-path run in this and in a new process; distinct by (contract, case)")
 
     state = dict(sampled=set(), recorded={}, failcount={})
     if workers is not None:
@@ -771,6 +934,8 @@ def main():
                         runs.append((o, nproc, cs))
             runs += [(O(mode="cis", ig=2, nnz=2, mad=1), 2, 2), (O(mode="trans", ig=1, nnz=0, mad=5, cnt=3), 3, 3), (O(ig=3, nnz=0, tol=1e-3), 2, 6)]
             cli_checks(B, rec, upper_spec(F), sizes, runs)
+    for name, steps in hist_scenarios(B.thorough, B.rng):
+        history_checks(B, rec, pools, name, steps, full=B.thorough)
     merge(B, rec, state)
     for p in pools.values():
         p.terminate()
